@@ -48,6 +48,9 @@ pub struct RefBus {
     /// IF bits whose value the statement leaves open at the moment (request raised by a STAT/LYC/DIV write)
     pub if_unknown: u8,
     pub dma: Option<(u16, u8)>,
+    /// LCDC bit 7 has been written 0 at some point: what LY, the STAT status bits and the VBlank/STAT requests do while the
+    /// display is off (and where the schedule restarts) is not specified, so they are not asserted any more
+    pub lcd_was_off: bool,
     /// bytes copied by DMA so far (probe)
     pub dma_copied: u64,
 }
@@ -80,6 +83,7 @@ impl RefBus {
             iflag: 0,
             if_unknown: 0,
             dma: None,
+            lcd_was_off: false,
             dma_copied: 0,
         }
     }
@@ -137,9 +141,15 @@ impl RefBus {
             }
             0xff06 => Expect::exact(self.timers[0].tma),
             0xff07 => Expect::Bits { value: self.timers[0].tac, mask: 0x07 },
-            0xff0f => Expect::Bits { value: self.iflag, mask: 0x1f & !self.if_unknown },
-            0xff41 => Expect::Bits { value: lcd::stat_at(self.lcd_pos, self.stat_enables, self.lyc), mask: 0x7f },
-            0xff44 => Expect::exact(lcd::state_at(self.lcd_pos).ly),
+            0xff0f => Expect::Bits { value: self.iflag, mask: 0x1f & !self.if_unknown & if self.lcd_was_off { !3 } else { 0xff } },
+            0xff41 => Expect::Bits { value: lcd::stat_at(self.lcd_pos, self.stat_enables, self.lyc), mask: if self.lcd_was_off { 0x78 } else { 0x7f } },
+            0xff44 => {
+                if self.lcd_was_off {
+                    Expect::Unspecified
+                } else {
+                    Expect::exact(lcd::state_at(self.lcd_pos).ly)
+                }
+            }
             0xff45 => Expect::exact(self.lyc),
             0xff46 => Expect::Unspecified,
             0xff40 | 0xff42 | 0xff43 | 0xff47 | 0xff48 | 0xff49 | 0xff4a | 0xff4b => Expect::exact(self.regs[&a]),
@@ -275,6 +285,9 @@ impl RefBus {
             }
             0xff46 => self.dma = Some(((v as u16) << 8, 0)),
             0xff40 | 0xff42 | 0xff43 | 0xff47 | 0xff48 | 0xff49 | 0xff4a | 0xff4b => {
+                if a == 0xff40 && v & 0x80 == 0 {
+                    self.lcd_was_off = true;
+                }
                 self.regs.insert(a, v);
             }
             0xff00..=0xff7f => {}
